@@ -111,6 +111,9 @@ func H_C20_split() {
 		vAssume(u[i] >= 0x80) // keeps String.Substring from forking on ASCII-ness; irrelevant for indices
 	}
 	full := vNondetBool("fullUnicode")
+	if vBound("FULL") == 0 {
+		vAssume(!full) // quick tier: u-flag index translation of the same list code is covered by H20.2.r2.findAll
+	}
 	withGroup := vBound("G") > 0
 	t := vC20NewMatcher("m", withGroup)
 	if vBound("GFULL") == 0 {
